@@ -2,7 +2,7 @@
    frames of at most 4096 bytes) shorter than 64 KiB. One lemma pair
    ([X_bytes], [X_len]) per application responder, one for [dispatch]; adding a
    responder means adding one such pair and one case in [dispatch_bytes/_len]. *)
-From MS Require Import Proofs.Tactics Proofs.Pipeline Proofs.ViewLemmas Proofs.Factor
+From MS Require Import Proofs.Tactics Spec.Pending Proofs.Pending Proofs.Pipeline Proofs.ViewLemmas Proofs.Factor
      Proofs.ChecksumLemmas Proofs.C06 Proofs.C04
      Proofs.SmbSafe Proofs.SmbLen
      L2 Spec.View Spec.RefDec Spec.C04 Spec.EnvOk.
@@ -676,11 +676,11 @@ Qed.
 
 Lemma proto_repl_tcp_src E clk ci tc data ci' tc' out :
   proto_repl_tcp E clk ci tc data = Ok (ci', tc', out) ->
-  same_addrs ci ci' /\ payload_src E clk ci data out.
+  same_addrs ci ci' /\ payload_src E clk ci (snd (tcp_identify E tc data)) out.
 Proof.
   unfold proto_repl_tcp.
-  match goal with |- context [dispatch E clk ci ?i ?t data] =>
-    destruct (dispatch E clk ci i t data) as [[[ci2 t2] o2]|e] eqn:Hd end; cbn [bind]; [|discriminate].
+  destruct (tcp_identify E tc data) as [tc1 data1]. cbn [snd].
+  destruct (dispatch E clk ci (t_proto tc1) (Some tc1) data1) as [[[ci2 t2] o2]|e] eqn:Hd; cbn [bind]; [|discriminate].
   intros H. ok3 H. eapply dispatch_src. exact Hd.
 Qed.
 
@@ -727,8 +727,11 @@ Lemma tcp_repl_src E cfg clk tb ci0 p tb' ci' r evs :
   exists sp dp seq ack fl pl,
     r = tcp_header sp dp seq ack fl ++ pl /\
     (pl = [] \/
-     exists ck, payload_src E clk (ci_set_cookie (ci_set_ports ci0 (u16_at 0 p) (u16_at 2 p)) ck)
-                            (tcp_payload p) (Some pl)).
+     exists ck data,
+       (table_pending_ok tb -> bytes_ok p = true ->
+        bytes_ok data = true /\ (length data <= 64 + length (tcp_payload p))%nat) /\
+       payload_src E clk (ci_set_cookie (ci_set_ports ci0 (u16_at 0 p) (u16_at 2 p)) ck)
+                   data (Some pl)).
 Proof.
   unfold tcp_repl.
   destruct (tcp_class (tcp_flags p)).
@@ -742,7 +745,8 @@ Proof.
       intros H; apply ok_inj in H; apply pair_inj in H; destruct H as [H _];
       apply pair_inj in H; destruct H as [_ H]; apply some_inj in H; subst r;
       eexists _, _, _, _, _, _; (split; [reflexivity|]).
-    + right. exists ck. exact Hsrc.
+    + right. exists ck. eexists. split; [|exact Hsrc].
+      intros Htb Hpb. apply tcp_identify_data_bound; [apply table_pending_find, Htb|apply tcp_payload_ok, Hpb].
     + left. reflexivity.
   - discriminate.
   - discriminate.
@@ -754,13 +758,15 @@ Qed.
 
 Lemma tcp_repl_len E cfg clk tb ci0 p tb' ci' r evs :
   env_small E = true -> (length (clk_date clk) <= 64)%nat -> ci_ok ci0 -> bytes_ok p = true ->
-  tcp_repl E cfg clk tb ci0 p = Ok (tb', ci', Some r, evs) -> (length r <= 20 + APP_MAX p)%nat.
+  table_pending_ok tb ->
+  tcp_repl E cfg clk tb ci0 p = Ok (tb', ci', Some r, evs) -> (length r <= 468 + APP_MAX p)%nat.
 Proof.
-  intros HE Hclk Hci Hp H.
+  intros HE Hclk Hci Hp Htb H.
   destruct (tcp_repl_src _ _ _ _ _ _ _ _ _ _ H) as (sp & dp & sq & ak & fl & pl & -> & Hpl).
   rewrite app_length, (proj2 (tcp_header_ok _ _ _ _ _)).
-  destruct Hpl as [-> | (ck & Hsrc)]; [cbn; lia|].
-  apply (payload_src_len _ _ _ _ _ HE Hclk) in Hsrc; [|exact Hci | apply tcp_payload_ok, Hp].
+  destruct Hpl as [-> | (ck & data & Hdata & Hsrc)]; [cbn; lia|].
+  destruct (Hdata Htb Hp) as [Hdb Hdl].
+  apply (payload_src_len _ _ _ _ _ HE Hclk) in Hsrc; [|exact Hci | exact Hdb].
   cbn [pl_len] in Hsrc. pose proof (proj2 (tcp_payload_ok p)). unfold APP_MAX in *. lia.
 Qed.
 
@@ -916,10 +922,10 @@ Section L4Out.
   Qed.
 
   Lemma l4_out_len rsrc hlim x :
-    env_small E = true -> (length (clk_date clk) <= 64)%nat ->
-    l4_out E cfg clk tb f v rsrc hlim x -> (length x <= 32 + APP_MAX (v_l4 v))%nat.
+    env_small E = true -> (length (clk_date clk) <= 64)%nat -> table_pending_ok tb ->
+    l4_out E cfg clk tb f v rsrc hlim x -> (length x <= 468 + APP_MAX (v_l4 v))%nat.
   Proof.
-    intros HE Hclk H.
+    intros HE Hclk Htb H.
     pose proof (view_l4_ok cfg f v Hf Hv) as Hl4.
     pose proof (l3_ci_ok cfg f v Hf Hv) as Hci.
     pose proof (cfg_ok_mac _ Hcfg) as Hmac.
@@ -928,7 +934,7 @@ Section L4Out.
     - destruct (icmpv6_repl_shape _ _ _ _ _ _ Hi) as [(t & _ & Htl & _ & ->) | (_ & ->)].
       + rewrite !app_length, Htl, Hmac. unfold APP_MAX. cbn [length]. lia.
       + rewrite app_length, skipn_length. unfold APP_MAX. cbn [length]. lia.
-    - pose proof (tcp_repl_len _ _ _ _ _ _ _ _ _ _ HE Hclk Hci Hl4 Ht). lia.
+    - pose proof (tcp_repl_len _ _ _ _ _ _ _ _ _ _ HE Hclk Hci Hl4 Htb Ht). lia.
     - pose proof (udp_repl_len _ _ _ _ _ _ _ _ HE Hclk Hci Hl4 Hu). lia.
   Qed.
 End L4Out.
@@ -964,11 +970,11 @@ Qed.
 (* ====================================================================== *)
 Theorem reply_length E cfg clk tb f tb' r evs :
   cfg_ok cfg = true -> env_small E = true -> bytes_ok f = true ->
-  (length f <= 4096)%nat -> (length (clk_date clk) <= 64)%nat ->
+  (length f <= 4096)%nat -> (length (clk_date clk) <= 64)%nat -> table_pending_ok tb ->
   reply E cfg clk tb f = Ok (tb', Some r, evs) ->
   (length r < 65536)%nat.
 Proof.
-  intros Hcfg HE Hf Hfl Hclk Hr. apply reply_factor_ok in Hr. rewrite nat_65536.
+  intros Hcfg HE Hf Hfl Hclk Htb Hr. apply reply_factor_ok in Hr. rewrite nat_65536.
   destruct (reply_spec_cases _ _ _ _ _ _ _ Hr)
     as [(a & e & Hl & Hl2 & Ha & ->) | (v & rsrc & hlim & x & off & c & Hv & Hout & ->)].
   - destruct (arp_repl_ok _ _ _ _ Hcfg Hl2 Ha) as [_ Hal].
@@ -977,7 +983,7 @@ Proof.
   - destruct (l4_out_addr E cfg clk tb f v Hf Hv _ _ _ Hout) as (_ & Hrl & _).
     rewrite (wrap_ip_length _ _ _ _ _ _ Hcfg Hv Hrl).
     pose proof (set_cksum_length_le off x c) as Hsl.
-    pose proof (l4_out_len E cfg clk tb f v Hcfg Hf Hv _ _ _ HE Hclk Hout) as Hxl.
+    pose proof (l4_out_len E cfg clk tb f v Hcfg Hf Hv _ _ _ HE Hclk Htb Hout) as Hxl.
     pose proof (ip_payload_len _ _ _ Hv) as Hpl. unfold APP_MAX in Hxl.
     destruct (v_v4 v); lia.
 Qed.
@@ -1032,14 +1038,14 @@ Qed.
 
 Lemma tcp_repl_bytes E cfg clk tb ci0 p tb' ci' r evs :
   env_ok E = true -> env_blobs_ok E = true ->
-  bytes_ok (clk_date clk) = true -> ci_ok ci0 -> bytes_ok p = true ->
+  bytes_ok (clk_date clk) = true -> ci_ok ci0 -> bytes_ok p = true -> table_pending_ok tb ->
   tcp_repl E cfg clk tb ci0 p = Ok (tb', ci', Some r, evs) -> bytes_ok r = true.
 Proof.
-  intros HE HB Hclk Hci Hp H.
+  intros HE HB Hclk Hci Hp Htb H.
   destruct (tcp_repl_src _ _ _ _ _ _ _ _ _ _ H) as (sp & dp & sq & ak & fl & pl & -> & Hpl).
   apply bytes_ok_app_intro; [apply tcp_header_ok|].
-  destruct Hpl as [-> | (ck & Hsrc)]; [reflexivity|].
-  apply (payload_src_bytes _ _ _ _ _ HE HB Hclk) in Hsrc; [exact Hsrc | exact Hci | apply tcp_payload_ok, Hp].
+  destruct Hpl as [-> | (ck & data & Hdata & Hsrc)]; [reflexivity|].
+  apply (payload_src_bytes _ _ _ _ _ HE HB Hclk) in Hsrc; [exact Hsrc | exact Hci | exact (proj1 (Hdata Htb Hp))].
 Qed.
 
 Lemma udp_repl_bytes E cfg clk ci0 p ci' r evs :
@@ -1056,9 +1062,10 @@ Qed.
 Lemma l4_out_bytes E cfg clk tb f v rsrc hlim x :
   cfg_ok cfg = true -> bytes_ok f = true -> view cfg f = Some v ->
   env_ok E = true -> env_blobs_ok E = true -> bytes_ok (clk_date clk) = true ->
+  table_pending_ok tb ->
   l4_out E cfg clk tb f v rsrc hlim x -> bytes_ok x = true.
 Proof.
-  intros Hcfg Hf Hv HE HB Hclk H.
+  intros Hcfg Hf Hv HE HB Hclk Htb H.
   pose proof (view_l4_ok cfg f v Hf Hv) as Hl4.
   pose proof (l3_ci_ok cfg f v Hf Hv) as Hci.
   destruct H as [x evs Hv4 Hi | x tgt evs Hv4 Hi | tb' ci' x evs Ht | ci' x evs Hu].
@@ -1073,11 +1080,11 @@ Qed.
 
 Theorem reply_bytes_ok E cfg clk tb f tb' r evs :
   cfg_ok cfg = true -> env_ok E = true -> env_blobs_ok E = true ->
-  bytes_ok f = true -> bytes_ok (clk_date clk) = true ->
+  bytes_ok f = true -> bytes_ok (clk_date clk) = true -> table_pending_ok tb ->
   reply E cfg clk tb f = Ok (tb', Some r, evs) ->
   bytes_ok r = true.
 Proof.
-  intros Hcfg HE HB Hf Hclk Hr. apply reply_factor_ok in Hr.
+  intros Hcfg HE HB Hf Hclk Htb Hr. apply reply_factor_ok in Hr.
   destruct (reply_spec_cases _ _ _ _ _ _ _ Hr)
     as [(a & e & Hl & Hl2 & Ha & ->) | (v & rsrc & hlim & x & off & c & Hv & Hout & ->)].
   - destruct (arp_repl_ok _ _ _ _ Hcfg Hl2 Ha) as [Hab _].
@@ -1085,21 +1092,21 @@ Proof.
     unfold eth_frame. bytes_tac. apply Hab. bytes_tac.
   - destruct (l4_out_addr E cfg clk tb f v Hf Hv _ _ _ Hout) as (Hrs & _ & Hh).
     apply wrap_ip_bytes; try assumption.
-    apply bytes_ok_set_cksum. exact (l4_out_bytes E cfg clk tb f v rsrc hlim x Hcfg Hf Hv HE HB Hclk Hout).
+    apply bytes_ok_set_cksum. exact (l4_out_bytes E cfg clk tb f v rsrc hlim x Hcfg Hf Hv HE HB Hclk Htb Hout).
 Qed.
 
 (* C04 without hypotheses on the emitted frame *)
 Theorem wellformed_closed E cfg clk tb f tb' r evs :
   cfg_ok cfg = true -> env_ok E = true -> env_blobs_ok E = true -> env_small E = true ->
   bytes_ok f = true -> (length f <= 4096)%nat ->
-  bytes_ok (clk_date clk) = true -> (length (clk_date clk) <= 64)%nat ->
+  bytes_ok (clk_date clk) = true -> (length (clk_date clk) <= 64)%nat -> table_pending_ok tb ->
   reply E cfg clk tb f = Ok (tb', Some r, evs) ->
   wf_frame r = true.
 Proof.
-  intros Hcfg HE HB HEs Hf Hfl Hclk Hclkl Hr.
+  intros Hcfg HE HB HEs Hf Hfl Hclk Hclkl Htb Hr.
   apply (wellformed E cfg clk tb f tb' r evs Hcfg Hf Hr).
-  - exact (reply_bytes_ok E cfg clk tb f tb' r evs Hcfg HE HB Hf Hclk Hr).
-  - exact (reply_length E cfg clk tb f tb' r evs Hcfg HEs Hf Hfl Hclkl Hr).
+  - exact (reply_bytes_ok E cfg clk tb f tb' r evs Hcfg HE HB Hf Hclk Htb Hr).
+  - exact (reply_length E cfg clk tb f tb' r evs Hcfg HEs Hf Hfl Hclkl Htb Hr).
 Qed.
 
 End WithSmbBytes.
